@@ -81,8 +81,12 @@ def gen_cases(ctx):
             cases.append({"kind": "depth", "reqs": [req(v4, v6, e4, e6, tr)]})
     # exhaustive interleavings at the selector scheduling points
     exh = [([DUAL], 1), ([DUAL], 2), ([DUAL, V4], 1), ([V6, V4], 2), ([req(True, True, False, True)], 1), ([req(True, True, True, False), DUAL], 1)]
-    for script in interleavings(thread_actions([DUAL], 2)):      # one reload that fails, one that succeeds
-        cases.append(sched_case([DUAL], 2, script, nbad=1))
+    # reloads that fail (no subnet file).  The file a reload reads is chosen through a process-wide environment
+    # variable at the time the reload reads it, which the driver cannot pin when several reloads are in flight, so a
+    # scenario has either only good or only failing reloads (the outcome is then independent of who reads what).
+    for m in (1, 2):
+        for script in interleavings(thread_actions([DUAL], m)):
+            cases.append(sched_case([DUAL], m, script, nbad=m))
     if not quick:
         exh += [([DUAL, DUAL], 1), ([DUAL, DUAL], 2), ([DUAL, V6], 2), ([DUAL, V4, NONE], 1), ([DUAL, V4, V6], 1)]
     for reqs, m in exh:
@@ -97,7 +101,7 @@ def gen_cases(ctx):
                             req(True, False, True, False), req(False, True, False, True)])
             reqs.append(dict(r))
         m = rng.choice([1, 1, 2, 2, 0, 3])
-        nbad = rng.choice([0, 0, 0, 1]) if m else 0
+        nbad = rng.choice([0, 0, 0, m])
         cases.append(sched_case(reqs, m, random_merge(rng, thread_actions(reqs, m)), nbad))
     # unscripted stress
     for k, m, it in ([(4, 2, 300)] if quick else [(4, 2, 2000), (8, 3, 1500), (2, 1, 3000)]):
